@@ -553,6 +553,9 @@ def run(ck):
     # known finding compile-absurd-array-size, recorded once: two immediate panics
     add_front("absurd-array-size-probe", "pub fn main(b: bool) -> bool { b & [true; 18446744073709551615][1] }")
     add_front("absurd-array-size-probe", "pub fn main(p: [u8; 18446744073709551615], q: u8) -> u8 { q }")
+    # the two other recorded classes, one deterministic probe each (so that every listed finding is reported on every run)
+    add_front("const-expr-array-size-probe", "pub fn main(i: usize, arr: [i32; const { true + 3 }]) -> i32 { arr[i] }")
+    add_front("shift-amount-probe", "pub fn main(a: u32, b: u32) -> u32 { b >> !0 }")
     add_front("deep-nesting-probe", "pub fn main(x: u8) -> u8 { " + "(" * 20000 + "x" + ")" * 20000 + " }")
     seen = set()
     fj = []
